@@ -14,6 +14,7 @@ package main
 
 import (
 	"fmt"
+	"math/big"
 	"os"
 	"os/exec"
 	"reflect"
@@ -28,6 +29,7 @@ import (
 	"github.com/tuneinsight/lattigo/v6/ring"
 	"github.com/tuneinsight/lattigo/v6/schemes/bgv"
 	"github.com/tuneinsight/lattigo/v6/schemes/ckks"
+	"github.com/tuneinsight/lattigo/v6/utils/bignum"
 	"github.com/tuneinsight/lattigo/v6/utils/sampling"
 )
 
@@ -397,6 +399,56 @@ func genC10(c *Ctx) {
 			return diff(deepHash(p1), deepHash(p2))
 		},
 		use: func(x interface{}) { _ = x.(*ckks.Encoder).Encode([]float64{1, 2, 3}, ckks.NewPlaintext(cp, 1)) }})
+	// encoders with an arbitrary-precision scratch buffer (precision > 53 bits): the copy must carry the precision
+	encPrec := func(label string, par ckks.Parameters, mkEnc func() *ckks.Encoder, prec uint) {
+		add(c10Case{name: "ckks.Encoder.ShallowCopy[" + label + "]",
+			mk: func() (interface{}, interface{}) { o := mkEnc(); return o, o.ShallowCopy() },
+			same: func(o, x interface{}) string {
+				n := par.MaxSlots()
+				v1 := make([]complex128, n)
+				v2 := make([]float64, n)
+				v3 := make([]*bignum.Complex, n)
+				for i := range v1 {
+					v1[i] = complex(1/float64(3+i), -1/float64(7+i))
+					v2[i] = 1 / float64(11+i)
+					re := new(big.Float).SetPrec(prec).Quo(bignum.NewFloat(1, prec), bignum.NewFloat(float64(3+i), prec))
+					im := new(big.Float).SetPrec(prec).Quo(bignum.NewFloat(-1, prec), bignum.NewFloat(float64(13+i), prec))
+					v3[i] = &bignum.Complex{re, im}
+				}
+				run := func(e *ckks.Encoder) string {
+					out := ""
+					for _, v := range []interface{}{v1, v2, v3, v1} {
+						pt := ckks.NewPlaintext(par, par.MaxLevel())
+						err := e.Encode(v, pt)
+						out += fmt.Sprintf("%v:%s|", err != nil, deepHash(pt))
+						d1 := make([]complex128, n)
+						d3 := make([]*bignum.Complex, n)
+						for i := range d3 {
+							d3[i] = &bignum.Complex{new(big.Float).SetPrec(prec), new(big.Float).SetPrec(prec)}
+						}
+						e1 := e.Decode(pt, d1)
+						e3 := e.Decode(pt, d3)
+						out += fmt.Sprintf("%v,%v:%s,%s|", e1 != nil, e3 != nil, deepHash(&d1), deepHash(&d3))
+					}
+					return out
+				}
+				a, b := run(o.(*ckks.Encoder)), run(x.(*ckks.Encoder))
+				if a != b {
+					return "plaintexts-or-decodings-differ"
+				}
+				return ""
+			},
+			use: func(x interface{}) {
+				_ = x.(*ckks.Encoder).Encode([]complex128{1, 2, 3}, ckks.NewPlaintext(par, 1))
+			}})
+	}
+	for _, prec := range []uint{64, 128, 256} {
+		prec := prec
+		encPrec(fmt.Sprintf("prec%d", prec), cp, func() *ckks.Encoder { return ckks.NewEncoder(cp, prec) }, prec)
+	}
+	if hp, err := ckks.NewParametersFromLiteral(ckks.ParametersLiteral{LogN: logN, LogQ: []int{60, 60}, LogP: []int{61}, LogDefaultScale: 60}); err == nil {
+		encPrec("LogDefaultScale60", hp, func() *ckks.Encoder { return ckks.NewEncoder(hp) }, 128)
+	}
 	// ---- rgsw ----
 	add(c10Case{name: "rgsw.Evaluator.ShallowCopy", mk: func() (interface{}, interface{}) { o := rgsw.NewEvaluator(bp, evk); return o, o.ShallowCopy() }})
 	add(c10Case{name: "rgsw.Evaluator.WithKey", docShared: true, mk: func() (interface{}, interface{}) { o := rgsw.NewEvaluator(bp, evk); return o, o.WithKey(evk2) }})
